@@ -191,6 +191,113 @@ def const_arg(f, call, i):
     return o.get("v") if o.get("kind") == "const" else None
 
 
+# --- inline view of small same-crate helper methods (a behaviour-preserving extraction must not hide a site)
+class Site:
+    """a pseudo call: `.bb` the block of the (call) site, `.value` the constant stored (None if not a constant
+    store), `.store` True for a plain store"""
+    __slots__ = ("bb", "value", "store", "call")
+
+    def __init__(self, bb, value, store, call):
+        self.bb, self.value, self.store, self.call = bb, value, store, call
+
+
+def local_callee(c, call):
+    """the Fn of a direct call to a function of this crate, or None"""
+    if call.ind is not None:
+        return None
+    for n in call.names():
+        g = c.fns.get(n)
+        if g is not None:
+            return g
+    return None
+
+
+def store_helper(h):
+    """h stores one of its parameters into `<self>.shared.sleep_state` on every path and does nothing else:
+    returns the parameter number, or None"""
+    if h.d.get("self_ty") is None or "TaskState<" not in h.d["self_ty"] or "Shared" in h.d["self_ty"]:
+        return None
+    st = sleep_calls(h, SLEEP_STORE)
+    if not st or len(sleep_calls(h, SLEEP_WRITES)) != len(st):
+        return None
+    ks = set()
+    for x in st:
+        o = h.origin(x.args[1])
+        fields, term = chase(h, x.args[0])
+        if o.get("kind") != "arg" or o.get("proj") or ".shared" not in fields or term.get("kind") != "arg" \
+                or term["n"] != 1:
+            return None
+        ks.add(o["n"])
+    if len(ks) != 1 or any(not x.matches([DEREF, SLEEP_STORE]) for x in h.calls()):
+        return None
+    if not every_return_passes(h, [x.bb for x in st]) or any(h.in_cycle(x.bb) for x in st):
+        return None
+    return next(iter(ks))
+
+
+def wait_helper(h):
+    """h returns `CallbackCode::Wait(<self>.shared.waitable_set ... .as_raw())` on every path and does nothing else"""
+    if h.d.get("self_ty") is None or "TaskState<" not in h.d["self_ty"] or "Shared" in h.d["self_ty"]:
+        return False
+    ag = h.aggregates("CallbackCode")
+    if not ag or any(rv["var"] != "Wait" for _, _, rv, _ in ag):
+        return False
+    for b, i, rv, s in ag:
+        if s["p"]["l"] != 0 or s["p"].get("p"):
+            return False
+        o = root(h, rv["ops"][0], [])
+        if not is_call(o, "WaitableSet::as_raw"):
+            return False
+        fields, term = chase(h, o["call"].args[0])
+        if not (".waitable_set" in fields and ".shared" in fields and term.get("kind") == "arg" and term["n"] == 1):
+            return False
+    if len(h.defs.get(0, [])) != len(ag) or not every_return_passes(h, [b for b, _, _, _ in ag]):
+        return False
+    return all(x.matches(PASS + ["WaitableSet::as_raw"]) for x in h.calls())
+
+
+def sleep_sites(c, f, writes_only=True):
+    """every write of sleep_state in f: direct atomic calls and calls of a store helper (value resolved at the
+    call site)"""
+    out = []
+    for x in sleep_calls(f, SLEEP_WRITES):
+        st = bool(x.matches(SLEEP_STORE))
+        out.append(Site(x.bb, const_arg(f, x, 1) if st else None, st, x))
+    for x in f.calls():
+        h = local_callee(c, x)
+        if h is None or h.path == f.path:
+            continue
+        k = store_helper(h)
+        if k is not None and k - 1 < len(x.args):
+            out.append(Site(x.bb, const_arg(f, x, k - 1), True, x))
+    return out
+
+
+def wait_sites(c, f):
+    """[(bb, own_set: bool)] for every site of f that yields CallbackCode::Wait: aggregates and wait-helper calls"""
+    out = []
+    for b, i, rv, s in f.aggregates("CallbackCode", "Wait"):
+        o = root(f, rv["ops"][0], [])
+        out.append((b, is_call(o, "WaitableSet::as_raw") and own_set(f, o["call"].args[0])))
+    for x in f.calls():
+        h = local_callee(c, x)
+        if h is not None and h.path != f.path and wait_helper(h):
+            out.append((x.bb, task_state_root(f, f.origin(x.args[0]))))
+    return out
+
+
+def set_unwrap_sites(c, f):
+    """blocks of f where the content of `.waitable_set` is unwrapped: directly, or inside a TaskState helper"""
+    out = [x.bb for x in set_unwraps(f)]
+    for x in f.calls():
+        h = local_callee(c, x)
+        if h is not None and h.path != f.path and h.d.get("self_ty") and "TaskState<" in h.d["self_ty"] \
+                and "Shared" not in h.d["self_ty"] and wait_helper(h) and set_unwraps(h):
+            out.append(x.bb)
+    return out
+
+
+
 def set_unwraps(f):
     """`Option::unwrap/expect` calls on the content of `.waitable_set` (panic if the task has no set yet)"""
     out = []
@@ -474,12 +581,12 @@ def one(rep, c, cfg):
         polls = f.calls("Tasks::poll_next")
         rep.floor("R22.1", f"tasks.poll_next call sites {tag}", len(polls), 1)
         exits = f.aggregates("CallbackCode", "Exit")
-        waits = f.aggregates("CallbackCode", "Wait")
+        waits = wait_sites(c, f)  # inline view: aggregates and calls of a helper that returns Wait(own set)
         yields = f.aggregates("CallbackCode", "Yield")
         rep.floor("R22.1", f"Exit sites in the executor closure {tag}", len(exits), 1)
         rep.floor("R22.1", f"Wait sites in the executor closure {tag}", len(waits), 2)
         rep.floor("R22.1", f"Yield sites in the executor closure {tag}", len(yields), 1)
-        allsites = [b for b, _, _, _ in exits + waits + yields]
+        allsites = [b for b, _, _, _ in exits + yields] + [b for b, _ in waits]
         rep.ob("R22.1", f"executor: every return passes a CallbackCode construction site {tag}",
                every_return_passes(f, allsites), "a path returns a code that was not decided by a guarded site", f.loc())
 
@@ -516,7 +623,7 @@ def one(rep, c, cfg):
                     # the load happens after the poll and no store intervenes between load and the site
                     if poll_variant(f, x["call"].bb, "Tasks::poll_next") != {"Pending"}:
                         continue
-                    if [w for w in sleep_calls(f, SLEEP_WRITES) if w.bb in between(f, x["call"].bb, sb)]:
+                    if [w for w in sleep_sites(c, f) if w.bb in between(f, x["call"].bb, sb)]:
                         continue
                     woken_sw.append(sb)
                     res = eq
@@ -530,12 +637,10 @@ def one(rep, c, cfg):
                    woken_guard(b) is True, "Yield reachable without a wake-up during polling", f.loc(b))
 
         n_ready = n_pending = 0
-        for b, i, rv, s in waits:
+        for b, own in waits:
             pv = poll_variant(f, b, "Tasks::poll_next")
             arm = "/".join(sorted(pv)) if pv else "unguarded"
-            rep.ob("R22.1", f"executor: Wait ({arm} arm) names the task's own waitable set {tag}",
-                   is_call(root(f, rv["ops"][0], []), "WaitableSet::as_raw") and
-                   own_set(f, root(f, rv["ops"][0], [])["call"].args[0]),
+            rep.ob("R22.1", f"executor: Wait ({arm} arm) names the task's own waitable set {tag}", own,
                    "the waited set is not <task>.shared.waitable_set", f.loc(b))
             if pv == {"Ready"}:
                 n_ready += 1
@@ -547,12 +652,12 @@ def one(rep, c, cfg):
                 wg = woken_guard(b)
                 rep.ob("R22.1", f"executor: Wait after Poll::Pending only when sleep_state != WOKEN {tag}",
                        wg is False, "a task that was woken during polling goes to sleep (lost wake-up)", f.loc(b))
-                stores = [x for x in sleep_calls(f, SLEEP_STORE) if const_arg(f, x, 1) == SLEEPING
-                          and f.dominates(x.bb, b)]
+                stores = [x for x in sleep_sites(c, f) if x.store and x.value == SLEEPING
+                          and f.dominates(x.bb, b) and x.bb != b]
                 reads = [x for x in f.calls("read_inter_task_stream") if f.dominates(x.bb, b)]
                 ok = False
                 for st in stores:
-                    clean = not [w for w in sleep_calls(f, SLEEP_WRITES) if w.bb in between(f, st.bb, b)]
+                    clean = not [w for w in sleep_sites(c, f) if w.bb in between(f, st.bb, b) and w.bb != b]
                     after_test = any(f.dominates(sb, st.bb) for sb in woken_sw)
                     ordered = any(f.dominates(st.bb, r.bb) and r.bb != st.bb for r in reads)
                     ok = ok or (clean and after_test and ordered)
@@ -566,8 +671,8 @@ def one(rep, c, cfg):
                f"{n_ready} under Ready, {n_pending} under Pending", f.loc())
 
         # --- the polling window: sleep_state is POLLING when poll_next starts, on every turn of the loop
-        pst = [x for x in sleep_calls(f, SLEEP_STORE) if const_arg(f, x, 1) == POLLING]
-        other = [x for x in sleep_calls(f, SLEEP_WRITES) if x.bb not in {y.bb for y in pst}]
+        pst = [x for x in sleep_sites(c, f) if x.store and x.value == POLLING]
+        other = [x for x in sleep_sites(c, f) if x.bb not in {y.bb for y in pst}]
         rep.floor("R22.1", f"store(SLEEP_STATE_POLLING) sites {tag}", len(pst), 1)
         S = {x.bb for x in pst}
         for p in polls:
@@ -577,7 +682,7 @@ def one(rep, c, cfg):
                    "a poll can start with a stale WOKEN/SLEEPING state: spurious Yield or cross-task write", f.loc(p.bb))
             rep.ob("R22.1", f"executor: no other sleep_state write between store(POLLING) and poll_next {tag}",
                    not any(p.bb in f.reachable(w.bb, avoid=S) for w in other if w.bb != p.bb), "", f.loc(p.bb))
-        wst = [x for x in sleep_calls(f, SLEEP_STORE) if const_arg(f, x, 1) == WOKEN]
+        wst = [x for x in sleep_sites(c, f) if x.store and x.value == WOKEN]
         rep.floor("R22.1", f"store(SLEEP_STATE_WOKEN) on entry {tag}", len(wst), 1)
 
         # --- delivery of the event triple
@@ -628,10 +733,18 @@ def one(rep, c, cfg):
         for g in c.fns.values():
             ag = g.aggregates("CallbackCode")
             if ag:
-                n += len(ag)
+                ok = g.path in (outer.path, f.path)
+                if not ok and wait_helper(g):
+                    # a helper that only builds Wait(own set): fine if the executor is its only caller (each call
+                    # site was judged above as a Wait site)
+                    callers = [(h2, x) for h2 in c.fns.values() for x in h2.calls()
+                               if local_callee(c, x) is g]
+                    ok = bool(callers) and all(h2.path == f.path for h2, _ in callers)
+                    n += len(callers) if ok else len(ag)
+                else:
+                    n += len(ag)
                 rep.ob("R22.1", f"CallbackCode constructed in {short(g)} {tag}",
-                       g.path in (outer.path, f.path), "a callback code is decided outside the executor",
-                       g.loc(ag[0][0]))
+                       ok, "a callback code is decided outside the executor", g.loc(ag[0][0]))
         rep.floor("R22.1", f"CallbackCode construction sites in the crate {tag}", n, 5)
     rep.guard("R22.1", f"callback-codes {tag}", r1)
 
@@ -918,7 +1031,7 @@ def one(rep, c, cfg):
         rep.floor("R22.5", f"cancel_inter_task_stream_read call in Drop for TaskState {tag}", len(cancel), 1)
         # only publishing a sleep state (an atomic write to shared.sleep_state) may precede the cancellation:
         # everything that can run destructors or user code comes after it
-        quiet = {x.bb for x in sleep_calls(f, SLEEP_WRITES)} | {x.bb for x in f.calls(DEREF)}
+        quiet = {x.bb for x in sleep_sites(c, f)} | {x.bb for x in f.calls(DEREF)}
         rep.ob("R22.5", f"Drop for TaskState: the wakeup read is cancelled before anything is destroyed {tag}",
                all(f.set_dominates(set(cancel), x.bb) for x in f.calls() if x.bb not in cancel and x.bb not in quiet) and
                all(f.set_dominates(set(cancel), b) for b, t in f.drops()),
@@ -1114,8 +1227,9 @@ def one(rep, c, cfg):
         outer, f = executor()
         g = c.fn("async_support::block_on")
         n = 0
-        for call in set_unwraps(f):
+        for ub in set_unwrap_sites(c, f):
             n += 1
+            call = Site(ub, None, False, None)
             pv = poll_variant(f, call.bb, "Tasks::poll_next")
             why = []
             if any(t for _, _, t in call_guards(f, call.bb, "TaskState::remaining_work")):
